@@ -300,6 +300,13 @@ class Check:
         self.known_hit = []
         self.notes = []
         self.rng = random.Random(self.seed * 1000003 + int(hashlib.sha1(pid.encode()).hexdigest()[:6], 16))
+        # replay files of earlier runs of this check are stale once it runs again
+        for fn in os.listdir(REPLAY):
+            if fn.startswith(pid + "-") and fn.endswith(".json"):
+                try:
+                    os.unlink(os.path.join(REPLAY, fn))
+                except OSError:
+                    pass
 
     # --- proof part -------------------------------------------------------------------------
     def proof_part(self, targets, prop_module, theorems, audit_mods, unproved=(), thorough_checker=True):
@@ -337,6 +344,46 @@ class Check:
                     self.fail("audit", {"theorem": "leanchecker " + pm, "lean_error": out[-3000:]}, nofail=True)
                     return False
         return True
+
+    # --- liveness under explicit fairness (Machine/Fair.lean + Props/Live*.lean) ---------------------------------
+    LIVE = {
+        "C02": (["UrcuVerif.Props.LiveC02"],
+                ["UrcuVerif.Handshake.leader_eventually_woken", "UrcuVerif.Handshake.readers_eventually_done",
+                 "UrcuVerif.Handshake.gp_eventually_completes", "UrcuVerif.WaitNode.leader_eventually_done",
+                 "UrcuVerif.WaitNode.waiter_eventually_woken", "UrcuVerif.WaitNode.waiter_eventually_returns",
+                 "UrcuVerif.QsbrHs.qsbr_leader_eventually_woken"]),
+        "C03": (["UrcuVerif.Props.LiveC03", "UrcuVerif.Props.LiveC03Full"],
+                ["UrcuVerif.CallRcuWake.tso_helper_eventually_wakes", "UrcuVerif.CallRcu.helper_eventually_wakes",
+                 "UrcuVerif.CallRcu.batched_callback_eventually_invoked", "UrcuVerif.CallRcu.queued_callback_eventually_invoked",
+                 "UrcuVerif.CallRcu.C03_full_false"]),
+        "C04": (["UrcuVerif.Props.LiveC04"], ["UrcuVerif.CallRcu.barrier_eventually_returns"]),
+        "C13": (["UrcuVerif.Props.LiveC13"],
+                ["UrcuVerif.DeferWake.defer_thread_eventually_woken", "UrcuVerif.C13_conc_live_proved", "UrcuVerif.C13_conc_full_proved"]),
+        "C14": (["UrcuVerif.Props.LiveC14"], ["UrcuVerif.Poll.poll_eventually_true", "UrcuVerif.Poll.poll_eventually_true_of_gp"]),
+        "C16": (["UrcuVerif.Props.LiveC16"], ["UrcuVerif.Fork.after_fork_child_eventually_returns", "UrcuVerif.Fork.afc_exit"]),
+    }
+    FAIR = ["UrcuVerif.Fair.fair_measure_leadsto", "UrcuVerif.Fair.fair_measure_leadsto_family", "UrcuVerif.Fair.fair_measure_leadsTo",
+            "UrcuVerif.Fair.measure_leadsto_core"]
+
+    def live_part(self, pid=None):
+        """'eventually' theorems: fairness and environment assumptions are explicit hypotheses on the (infinite) run.
+        Adds their obligations to this check, keeping the theorem / axiom lists of the earlier proof parts."""
+        pid = pid or self.pid
+        if pid not in self.LIVE:
+            return True
+        mods, thms = self.LIVE[pid]
+        th, ax, un = list(self.cov.get("theorems", [])), dict(self.cov.get("axioms", {})), list(self.cov.get("unproved_full_statements", []))
+        cmd = self.cov.get("checker_cmd", "")
+        ok = self.proof_part(mods + ["UrcuVerif.Machine.Fair"], mods + ["UrcuVerif.Machine.Fair"], thms + self.FAIR,
+                             mods + ["UrcuVerif.Machine.Fair"], unproved=[])
+        self.cov["theorems"] = th + [t for t in self.cov.get("theorems", []) if t not in th]
+        ax.update(self.cov.get("axioms", {}))
+        self.cov["axioms"] = ax
+        self.cov["unproved_full_statements"] = un
+        self.cov["liveness_theorems"] = thms
+        if cmd:
+            self.cov["checker_cmd"] = cmd + " ; " + self.cov.get("checker_cmd", "")
+        return ok
 
     # --- results ----------------------------------------------------------------------------
     def fail(self, kind, info, nofail=False, key=None):
